@@ -13,11 +13,14 @@ from ..util import (has_call, find_calls, assigned_value, const_str, unparse, kw
 from .. import mutate as M
 from . import c04
 
+TECHNIQUE = 'static analysis: iterator provenance of the fitting window (chain(window, it)), keyword -> statistic table agreement, column-alignment rule, statelessness of shared filter objects, cardinality-domain evaluation of degenerate-size shortcuts'
+
 EXPLANATION = ("Structural rules over Scale.filter, Impute.filter and the Environments shortcuts: window = "
                "list(islice(it, using)) and every later traversal is chain(window, it) over the same iterator; every store "
                "into an interaction uses the key 'context'; no isinstance() has a boolean expression as its type argument "
                "(package-wide); loop-carried names in fluent methods are threaded; Impute's statistic filter (is not None) is "
                "the negation of its replacement test (is None) in all container arms.")
+EXPLANATION += " R8: Scale/Impute store nothing on the shared filter object; R9: iqr's constant shortcut only for n <= 1."
 
 EF = "coba/environments/filters.py"
 EC = "coba/environments/core.py"
